@@ -103,6 +103,7 @@ class StubSim(DynamicOrderSimulation):
             self.next_agent = self._roster
 
     def reset(self, **kwargs):
+        self.last_reset_kwargs = dict(kwargs)       # what reached the simulation (adapters and managers hand it on)
         self.ep = 1 if self.flat_ep else self.ep + 1
         self.t = 0
         self.reads = [0] * self.n
